@@ -59,6 +59,19 @@ func (e CollateralContainsNonAdaError) Error() string {
 	)
 }
 
+type TooManyCollateralInputsError struct {
+	Provided uint
+	Max      uint
+}
+
+func (e TooManyCollateralInputsError) Error() string {
+	return fmt.Sprintf(
+		"too many collateral inputs: provided %d, maximum %d",
+		e.Provided,
+		e.Max,
+	)
+}
+
 type NoCollateralInputsError struct{}
 
 func (NoCollateralInputsError) Error() string {
